@@ -92,10 +92,12 @@ func VJP(in Instr, xs []*T, y, gy *T, rule BroadcastRule) []*T {
 		o := Zeros(x.Shape)
 		for i := range o.Data {
 			d := x.Data[i] - mu.Data[i]
+			// the local derivative first, the upstream weighting last: g * 2 overflows for weightings near the top of the range although
+			// g * (2d/(n-1)) does not
 			if in.Op == "varalong" {
-				o.Data[i] = ge.Data[i] * 2 * d / float64(n-1)
+				o.Data[i] = ge.Data[i] * (2 * d / float64(n-1))
 			} else {
-				o.Data[i] = ge.Data[i] * d / (float64(n-1) * ye.Data[i])
+				o.Data[i] = ge.Data[i] * (d / (float64(n-1) * ye.Data[i]))
 			}
 		}
 		return []*T{o}
